@@ -5,7 +5,7 @@ from .. import common as C
 from .. import postrun as P
 
 LEVEL = "proof"
-N = {"quick": 6000, "thorough": 200000}
+N = {"quick": 16000, "thorough": 200000}
 WHICH = "defaulted"
 PID = "C18"
 
